@@ -349,7 +349,9 @@ func genGraph(seed uint64) *gen {
 		if !res.OK {
 			g.count("good_module_predicted_to_fail_" + failClass(res.Fail))
 		}
-		if res.OK && siblings && r.Chance(1, 2) {
+		// (a module whose segment offsets read a mutable imported global could fail the second time; the
+		// element-segment failure is a known deviation, so such modules get no siblings)
+		if res.OK && siblings && r.Chance(1, 2) && !usesMutableImportInConstExpr(g.sc.Mods[len(g.sc.Mods)-1]) {
 			// a second (third) instance of the SAME CompiledModule: same imports, hence the same shared objects,
 			// but its own private memory/tables/globals
 			spec := g.sc.Mods[len(g.sc.Mods)-1]
